@@ -199,6 +199,20 @@ impl AnchorContext {
     /// Returns the name of a column if it has been given a name already, or generates
     /// a new name for it and registers it in the AnchorContext's column_names HashMap.
     pub(crate) fn ensure_column_name(&mut self, cid: CId) -> Option<&String> {
+        // verification hook: declaration kind, name and generator state before the call
+        #[cfg(prqlc_verif)]
+        log::debug!(
+            "verif:ensure_column_name {}",
+            serde_json::json!({"cid": cid.get(),
+                "decl": match &self.column_decls[&cid] {
+                    ColumnDecl::RelationColumn(_, _, RelationColumn::Wildcard) => serde_json::json!("wildcard"),
+                    ColumnDecl::RelationColumn(_, _, RelationColumn::Single(n)) => serde_json::json!({"single": n}),
+                    ColumnDecl::Compute(_) => serde_json::json!("compute"),
+                },
+                "name_before": self.column_names.get(&cid).cloned(),
+                "gen_before": self.col_name.clone().gen()})
+        );
+
         // don't name wildcards & named RelationColumns
         let decl = &self.column_decls[&cid];
         if let ColumnDecl::RelationColumn(_, _, col) = decl {
@@ -216,12 +230,60 @@ impl AnchorContext {
         Some(entry.or_insert_with(|| self.col_name.gen()))
     }
 
+    /// verification hook: result of the preceding `ensure_column_name(cid)` call
+    #[cfg(prqlc_verif)]
+    pub(crate) fn verif_ensured(&self, cid: CId) {
+        log::debug!(
+            "verif:ensure_column_name_result {}",
+            serde_json::json!({"cid": cid.get(), "name_after": self.column_names.get(&cid).cloned(),
+                "gen_after": self.col_name.clone().gen()})
+        );
+    }
+
     pub(super) fn load_names(
         &mut self,
         pipeline: &[SqlTransform],
         output_cols: Vec<RelationColumn>,
     ) {
         let output_cids = self.determine_select_columns(pipeline);
+
+        // verification hook: the pipeline as determine_select_columns sees it, the relation's
+        // output columns and the names of the output cids before the call
+        #[cfg(prqlc_verif)]
+        let verif_in = {
+            let inst = |riid: &RIId| -> Vec<usize> {
+                let rel = &self.relation_instances[riid];
+                rel.table_ref.columns.iter().map(|(_, c)| c.get()).collect()
+            };
+            let cids = |v: &[CId]| -> Vec<usize> { v.iter().map(|c| c.get()).collect() };
+            let pl: Vec<serde_json::Value> = pipeline
+                .iter()
+                .map(|t| match t {
+                    SqlTransform::From(r) => serde_json::json!({"from": inst(r)}),
+                    SqlTransform::Join { with, .. } => serde_json::json!({"join": inst(with)}),
+                    SqlTransform::Super(Transform::Select(c)) => serde_json::json!({"select": cids(c)}),
+                    SqlTransform::Super(Transform::Aggregate { partition, compute }) => {
+                        serde_json::json!({"aggregate": [cids(partition), cids(compute)]})
+                    }
+                    _ => serde_json::json!("other"),
+                })
+                .collect();
+            let cols: Vec<serde_json::Value> = output_cols
+                .iter()
+                .map(|c| match c {
+                    RelationColumn::Wildcard => serde_json::json!("wildcard"),
+                    RelationColumn::Single(n) => serde_json::json!({"single": n}),
+                })
+                .collect();
+            let before: Vec<Option<String>> =
+                output_cids.iter().map(|c| self.column_names.get(c).cloned()).collect();
+            // determine_select_columns of every prefix of the pipeline (it is a pure function):
+            // exercises its From / Join / Aggregate cases, which a complete pipeline never ends in
+            let prefixes: Vec<Vec<usize>> = (0..=pipeline.len())
+                .map(|k| cids(&self.determine_select_columns(&pipeline[..k])))
+                .collect();
+            (pl, cols, before, prefixes)
+        };
 
         assert_eq!(output_cids.len(), output_cols.len());
 
@@ -230,6 +292,15 @@ impl AnchorContext {
                 self.column_names.insert(*cid, name);
             }
         }
+
+        #[cfg(prqlc_verif)]
+        log::debug!(
+            "verif:load_names {}",
+            serde_json::json!({"pipeline": verif_in.0, "output_cols": verif_in.1,
+                "output_cids": output_cids.iter().map(|c| c.get()).collect::<Vec<_>>(),
+                "names_before": verif_in.2, "prefixes": verif_in.3,
+                "names_after": output_cids.iter().map(|c| self.column_names.get(c).cloned()).collect::<Vec<_>>()})
+        );
     }
 
     pub(super) fn determine_select_columns(&self, pipeline: &[SqlTransform]) -> Vec<CId> {
